@@ -143,6 +143,7 @@ def run(ctx):
     for k, case in enumerate(clause_cases()):
         if ctx.mine(k):
             compare(ctx, case, "clause")
+    minimal_start_cases(ctx)
     # histories of definitions under one ARN
     for k in range(ctx.pick(160, 3000)):
         if ctx.mine(k):
@@ -247,6 +248,45 @@ def redefinition_case(ctx, k):
                               dict(history=history, input=data, funcs=funcs, alone=single, seed=ctx.seed, family="redefinition", k=k),
                               None if gen_no else classify(dict(asl=current, input=data, funcs=funcs), outs, (st, out, err), stuck=(st == "NONE")))
                 return
+
+
+def minimal_start_cases(ctx):
+    """Executions started by the minimal event the engine documents for its queue (data + the state machine's id, nothing else in the context): the context
+    object the states see is the one the engine builds itself, and $$.Execution.Input is the execution's input whatever the first states do to their data."""
+    from lsfverif.sim.world import World, EVENTQ
+    from lsfverif.sim import fakepika
+    P = lambda **kw: dict(Type="Pass", **kw)
+    machines = [
+        {"StartAt": "A", "States": {"A": P(Result=1, ResultPath="$.r", Next="B"), "B": P(Parameters={"in.$": "$$.Execution.Input", "data.$": "$"}, End=True)}},
+        {"StartAt": "A", "States": {"A": P(Result={"x": 2}, ResultPath="$.k.deep", Next="B"), "B": P(Parameters={"in.$": "$$.Execution.Input.k", "now.$": "$.k"}, End=True)}},
+        {"StartAt": "A", "States": {"A": dict(Type="Task", Resource=G.FN_PREFIX + "wrap", ResultPath="$.res", Next="B"), "B": P(Parameters={"in.$": "$$.Execution.Input"}, End=True)}},
+        {"StartAt": "M", "States": {"M": {"Type": "Map", "ItemsPath": "$.xs", "ResultPath": "$.out", "ItemProcessor": {"StartAt": "w", "States": {"w": P(Result=0, ResultPath="$.z", End=True)}}, "Next": "B"},
+                                    "B": P(Parameters={"in.$": "$$.Execution.Input", "out.$": "$.out"}, End=True)}},
+        {"StartAt": "A", "States": {"A": P(InputPath="$.k", ResultPath="$.k.self", Next="B"), "B": P(Parameters={"in.$": "$$.Execution.Input"}, End=True)}},
+    ]
+    for j, asl in enumerate(machines):
+        if not ctx.mine(j):
+            continue
+        data = {"k": {"a": 1}, "xs": [{"i": 0}, {"i": 1}]}
+        funcs = {"wrap": ["wrap"]}
+        ctx.evaluation(); ctx.count("minimal_start_cases")
+        outs = R.outcomes(asl, lambda: G.task_oracle(funcs), data, limit=16, exec_id=R.ANY if hasattr(R, "ANY") else "x", exec_name="x", sm_id=corpus.SM_ARN)
+        with World(seed=ctx.seed) as w:
+            sm = w.create_machine("m", asl)
+            w.add_worker("wrap", G.worker_behaviour(funcs))
+            ch = w.client_channel()
+            ch.basic_publish("", EVENTQ, json.dumps({"data": data, "context": {"StateMachine": {"Id": sm}}}), fakepika.BasicProperties(message_id="min-%d" % j, content_type="application/json"))
+            w.run()
+            terms = w.terminal_notifications()
+            ctx.count("compared")
+            if len(terms) != 1:
+                ctx.violation("minimal-start-event-did-not-end-once", dict(asl=asl, input=data, terminals=len(terms), family="minimal-start"), None)
+                continue
+            d = terms[0]["body"]["detail"]
+            st, out, err = d["status"], (json.loads(d["output"]) if d.get("output") is not None else None), d.get("error")
+            ctx.nontrivial(asl); ctx.distinct("cases", dict(asl=asl, minimal=True))
+            if not corpus.agrees(outs, st, out, err):
+                ctx.violation("outcome-not-admissible", dict(asl=asl, input=data, engine=[st, out, err], expected=[repr(o) for o in outs[:2]], family="minimal-start"), None)
 
 
 def _case(asl, data, funcs=None):
